@@ -135,6 +135,14 @@ Definition nona_f (value : cell) (e : edge) (lf : lframe) : lframe :=
   | ELatest, _ => rev (dropwhile (masked value) (rev lf))    (* df_slice(df, ub = res.index[-1], '[]') *)
   | EHistoric, _ => dropwhile (masked value) lf               (* df_slice(df, lb = res.index[0], '[]') *)
   end.
-(* not is_pd(df): edge is ignored *)
+(* ndarray: same rows by position (REPAIRED form, as nona's docstring states:
+   nona(a, edge = 1) keeps interior NaNs; the pinned tree ignores `edge` unless is_pd(df)) *)
 Definition nona_array (value : cell) (e : edge) (rows : list row) : list row :=
-  map snd (nona_f value EAll (of_array rows)).
+  map snd (nona_f value e (of_array rows)).
+
+(* a call as the harness observes it: (returned object, the argument re-inspected afterwards).
+   The code never assigns into `df`: every pandas call above returns a new object. *)
+Definition fill_call (k : nat) (lim : option nat) (ms : list meth) (lf : lframe) : lframe * lframe :=
+  (fill k lim ms lf, lf).
+Definition nona_call (value : cell) (e : edge) (lf : lframe) : lframe * lframe :=
+  (nona_f value e lf, lf).
